@@ -69,6 +69,7 @@ func childDocsTypes(c execCase, r *h.Rec, mode string, extra map[string]string, 
 	oc := guard(func() { unionsText = gen.WriteDeclarations(gounions.Generate(ls.an)) })
 	if oc.Panicked {
 		r.Refused++
+		r.Class("refused(gounions):" + clip(oc.Msg, 70))
 		return ls, nil, "", nil
 	}
 	fixed, err := fixImports(c.Spec, ls, "zz_unions_gen.go", unionsText)
